@@ -101,10 +101,19 @@ Lemma refuted_length :
   option_map (@length N) (store_dq w_10x) = Some 4%nat /\ length (css_decode w_10x) = 2%nat.
 Proof. split; vm_compute; reflexivity. Qed.
 
-Lemma refuted_unquote_decimal :
-  (match literal_value w_10x with Some lv => css_unquote lv | None => None end) = Some [10; 120] /\
+(* cf6ac61: unquote reads the stored hex escape in base 16 *)
+Lemma unquote_hex_example :
+  (match literal_value w_10x with Some lv => css_unquote lv | None => None end) = Some (css_decode w_10x) /\
   css_decode w_10x = [16; 120].
 Proof. split; vm_compute; reflexivity. Qed.
+
+(* quote(unquote(s)) for a string denoting a newline: the newline comes back unescaped *)
+Definition w_nl : list N := [92; 97].                       (* \a *)
+Lemma refuted_quote_unquote_newline :
+  exists lv u, literal_value w_nl = Some lv /\ css_unquote lv = Some u /\ u = [10] /\
+    css_display (pref_dquotes (css_quote (mkStr u QNone))) = [34; 10; 34] /\
+    token_denotes [34; 10; 34] (css_decode w_nl) = false.
+Proof. eexists. eexists. repeat split; vm_compute; reflexivity. Qed.
 
 Definition w_pu : list N := [57344; 49].                    (* U+E000 followed by the digit 1 *)
 Lemma refuted_private_use :
